@@ -57,7 +57,8 @@ pub fn expected_stderr(reference: &RunResult, run_argv1: &[u8], run_abs: &[u8]) 
             q_old.extend_from_slice(&reference.abs_script);
             q_old.push(b'\'');
             let mut q_new = b"'".to_vec();
-            q_new.extend_from_slice(run_abs);
+            // seed renders the absolute path with to_string_lossy
+            q_new.extend_from_slice(String::from_utf8_lossy(run_abs).as_bytes());
             q_new.push(b'\'');
             line = replace_all(&line, &q_old, &q_new);
         } else if let Some(st) = last_st {
@@ -99,6 +100,7 @@ pub fn fired_kinds(plan: &Plan, r: &RunResult) -> Vec<String> {
                         Act::Err(_) => e.act == "err",
                         Act::PErr(_) => e.act == "perr",
                         Act::Part(..) | Act::PPart(..) => e.act == "part" || e.act == "part0" || e.act == "pend",
+                        Act::Zero => e.act == "zero",
                         Act::Erange => false,
                     }
             }),
@@ -110,7 +112,7 @@ pub fn fired_kinds(plan: &Plan, r: &RunResult) -> Vec<String> {
                         Act::Err(_) => e.act == "err",
                         Act::PErr(_) => e.act == "perr",
                         Act::Part(..) | Act::PPart(..) => e.act == "part" || e.act == "pend",
-                        Act::Erange => false,
+                        Act::Erange | Act::Zero => false,
                     }
             }),
             Item::Open { .. } => r.events.iter().any(|e| e.kind == 'O' && e.ret < 0 && (e.act == "err" || e.act == "eintr")),
